@@ -22,6 +22,7 @@ def async_refs_expr(ctx, e, aliases):
 
 def run(ctx):
     ctx.rule("R10.x", "context-manager model: _batch_call_watchers, batch_call_watchers, discard_events, _syncing and edit_constant interpreted abstractly with the body of the `with` supplied at the `yield` (62 cases: entry state x body ends normally / raises x nesting x queues replaced in the body x Parameter copies made in the body): flag, queues, syncing set and constant flags are, after the block, what they were before; the flush runs iff outermost, after the restore, also when the body raised", floor=1)
+    ctx.rule("R10.r", "update-context exit: _ParametersRestorer.__exit__ interpreted abstractly (3 cases) assigns back every recorded previous value -- also one identical to the current value -- and every remembered reference in one update, and forgets the record, also when that update raises", floor=1)
     ctx.rule("R10.a", "the body of every `with _syncing(...)` contains no suspension point (await / async for / async with / yield)", floor=3)
     ctx.rule("R10.b", "every .cancel() on an async_refs entry deregisters it (async_refs.pop(k).cancel()) or is followed, before the next suspension point, by async_refs[k] = <current task>", floor=2)
     ctx.rule("R10.d", "in _async_ref, on every path from the entry to a suspension point the entry async_refs[pname] is the current task "
@@ -255,6 +256,8 @@ def run(ctx):
     syncing_set_replaced(ctx, "R10.j")
 
     # model-level rule, run last
+    from checks.shared import restorer_model
+    restorer_model(ctx, "R10.r")
     from checks import async_model
     async_model.report(ctx, "R10.y")
     from checks import rx_model
